@@ -421,8 +421,10 @@ func genCase(r *Rng, tier string, style int) Sx {
 			g.opAdd()
 		case k < 65:
 			g.opTip()
-		case k < 86:
+		case k < 82:
 			g.opReset()
+		case k < 86:
+			g.opPlainReorg()
 		case k < 93:
 			g.opRestart(false)
 		default:
@@ -506,6 +508,7 @@ func genAll(r *Rng, tier string, emit func(Sx)) {
 		emit(scripted(1))
 		emit(scripted(2))
 		emit(scripted3())
+		emit(scripted4())
 		return
 	}
 	r = NewRng(r.U64())
